@@ -52,6 +52,10 @@ theorem sat_singleton {I : Interp} {c : B} : Sat I [c] ↔ c.eval I = true := by
 def SubstOk (I : Interp) (st : SState) : Prop :=
   (∀ kv ∈ st.subst, kv.2.WF) ∧ (Sat I st.path → ∀ kv ∈ st.subst, kv.1.eval I = kv.2.eval I)
 
+/-- symbolic memory (byte terms) against concrete memory (bytes): same length, byte-wise the same values -/
+def MemRel (I : Interp) (sm : List T) (cm : List Nat) : Prop :=
+  (∀ b ∈ sm, b.WF ∧ b.width = 8) ∧ sm.map (·.eval I) = cm
+
 /-- simulation relation -/
 structure R (I : Interp) (env : Env) (code : List Nat) (p : Evm.Params) (st : SState) (f : Evm.Frame) : Prop where
   code : f.code = code
@@ -59,6 +63,7 @@ structure R (I : Interp) (env : Env) (code : List Nat) (p : Evm.Params) (st : SS
   stack : StackRel I st.stack f.stack
   env : EnvRel I env p f
   subst : SubstOk I st
+  mem : MemRel I st.mem f.mem
 
 /-- concrete reachability through non-halting core steps (the world is untouched by the core set) -/
 inductive CReach (p : Evm.Params) (w : Evm.World) : Evm.Frame → Evm.Frame → Prop where
@@ -162,23 +167,24 @@ theorem SubstOk.same {I : Interp} {st st' : SState} (h : SubstOk I st) (hs : st'
   unfold SubstOk; rw [hs, hp]; exact h
 
 /-- re-establish `R` after a core step: only pc and stack need attention (and the concretization map, when the path
-    grew) -/
+    grew; the memory, when it was written) -/
 theorem R.next {I env code p st f st' f'} (h : R I env code p st f) (hc : f'.code = f.code)
     (h1 : f'.caller = f.caller) (h2 : f'.value = f.value) (h3 : f'.this = f.this) (h4 : f'.calldata = f.calldata)
-    (hpc : f'.pc = st'.pc) (hstk : StackRel I st'.stack f'.stack) (hso : SubstOk I st') : R I env code p st' f' :=
-  ⟨hc.trans h.code, hpc, hstk, h.env.congr h1 h2 h3 h4, hso⟩
+    (hpc : f'.pc = st'.pc) (hstk : StackRel I st'.stack f'.stack) (hso : SubstOk I st')
+    (hm : MemRel I st'.mem f'.mem) : R I env code p st' f' :=
+  ⟨hc.trans h.code, hpc, hstk, h.env.congr h1 h2 h3 h4, hso, hm⟩
 
-/-- the common case: path and concretization map untouched -/
+/-- the common case: path, concretization map and memory untouched -/
 theorem R.next' {I env code p st f st' f'} (h : R I env code p st f) (hc : f'.code = f.code)
     (h1 : f'.caller = f.caller) (h2 : f'.value = f.value) (h3 : f'.this = f.this) (h4 : f'.calldata = f.calldata)
-    (hs : st'.subst = st.subst) (hp : st'.path = st.path)
+    (hs : st'.subst = st.subst) (hp : st'.path = st.path) (hsm : st'.mem = st.mem) (hfm : f'.mem = f.mem)
     (hpc : f'.pc = st'.pc) (hstk : StackRel I st'.stack f'.stack) : R I env code p st' f' :=
-  h.next hc h1 h2 h3 h4 hpc hstk (h.subst.same hs hp)
+  h.next hc h1 h2 h3 h4 hpc hstk (h.subst.same hs hp) (by rw [hsm, hfm]; exact h.mem)
 
-/-- `R` looks at pc, stack and the concretization map only -/
+/-- `R` looks at pc, stack, memory and the concretization map only -/
 theorem R.congr {I env code p st st' f} (h : R I env code p st f) (hpc : st'.pc = st.pc)
-    (hstk : st'.stack = st.stack) (hso : SubstOk I st') : R I env code p st' f :=
-  ⟨h.code, h.pc.trans hpc.symm, hstk ▸ h.stack, h.env, hso⟩
+    (hstk : st'.stack = st.stack) (hsm : st'.mem = st.mem) (hso : SubstOk I st') : R I env code p st' f :=
+  ⟨h.code, h.pc.trans hpc.symm, hstk ▸ h.stack, h.env, hso, hsm ▸ h.mem⟩
 
 theorem R.op_eq {I env code p st f} (h : R I env code p st f) : (f.code[f.pc]?).getD 0 = opAt code st.pc := by
   rw [h.code, h.pc]; rfl
@@ -239,6 +245,9 @@ theorem addCond_stack (s : Simp) (st : SState) (c : B) : (addCond s st c).stack 
   rcases addCond_cases s st c with ⟨h, _⟩ | h <;> rw [h]
 
 theorem addCond_visits (s : Simp) (st : SState) (c : B) : (addCond s st c).visits = st.visits := by
+  rcases addCond_cases s st c with ⟨h, _⟩ | h <;> rw [h]
+
+theorem addCond_mem (s : Simp) (st : SState) (c : B) : (addCond s st c).mem = st.mem := by
   rcases addCond_cases s st c with ⟨h, _⟩ | h <;> rw [h]
 
 /-- paths only grow -/
@@ -318,6 +327,11 @@ theorem addConds_visits (s : Simp) (aux : List B) (st : SState) :
   induction aux generalizing st with
   | nil => rfl
   | cons c aux ih => rw [List.foldl_cons, ih, addCond_visits]
+
+theorem addConds_mem (s : Simp) (aux : List B) (st : SState) : (aux.foldl (addCond s) st).mem = st.mem := by
+  induction aux generalizing st with
+  | nil => rfl
+  | cons c aux ih => rw [List.foldl_cons, ih, addCond_mem]
 
 theorem addConds_path_ext (s : Simp) (aux : List B) (st : SState) :
     ∃ ext, (aux.foldl (addCond s) st).path = st.path ++ ext := by
